@@ -541,3 +541,87 @@ Example add_expr_dynamic_example :
           (seq 1 11) = true ∧
   fst (expr_run (Some 12)) = Ok 11%Z ∧ trig (snd (expr_run (Some 12))) = Some 1.
 Proof. vm_compute. by split_and!. Qed.
+
+(** ** the hypotheses of [add_expr_dynamic] hold in the states of
+    [add_expr_dynamic_example] (for every value [k] of the forced trigger):
+    the ledger is 1 on the terminal and on the held nodes 2..7, 10 *)
+Definition dyn_ledger (n : positive) : nat :=
+  if bool_decide (n ∈ [1; 2; 3; 4; 5; 6; 7; 10]%positive) then 1 else 0.
+
+Lemma Counts_by_computation s (held : list positive) (L : positive → nat) :
+  (∀ n, n ∉ held → L n = 0) →
+  forallb (fun n => bool_decide (is_Some (succ s !! n))) held = true →
+  forallb (fun nt => bool_decide (refc s !! nt.1 = Some (indeg (succ s) nt.1 + L nt.1)))
+          (map_to_list (succ s)) = true →
+  Counts s L.
+Proof.
+  intros H0 Hh Hm. split.
+  - intros n [t Ht]%elem_of_dom.
+    assert (Hin : In (n, t) (map_to_list (succ s))) by (by apply elem_of_list_In, elem_of_map_to_list).
+    apply (proj1 (forallb_forall _ _) Hm) in Hin. by apply bool_decide_eq_true in Hin.
+  - intros n Hn. apply H0. intros Hin. apply Hn, elem_of_dom.
+    apply elem_of_list_In in Hin. apply (proj1 (forallb_forall _ _) Hh) in Hin.
+    by apply bool_decide_eq_true in Hin.
+Qed.
+
+Definition dyn_tail : list op :=
+    [OVar 0; OIncref 2; OVar 1; OIncref 3; OVar 2; OIncref 4; OVar 3; OIncref 5;
+     OApply "and" 2 (Some 4%Z) None; OIncref 6;
+     OApply "and" 3 (Some 5%Z) None; OIncref 7;
+     OApply "or" 6 (Some 7%Z) None; OIncref 10;
+     OConfigure (Some true)].
+Lemma dyn_history_good0 : GoodD (world_get (Total.run world_empty 0 (ONew [(0, 0); (1, 1); (2, 2); (3, 3)] :: dyn_tail)) 0).
+Proof.
+  apply run_goodD_from_new.
+    - by vm_compute.
+    - cbn [dyn_tail hist_okD allowedD is_new caller_ok]. repeat split.
+Qed.
+Lemma run_ops_run l : run_ops l = Total.run world_empty 0 l.
+Proof. reflexivity. Qed.
+Lemma dyn_history_eq : dyn_history = ONew [(0, 0); (1, 1); (2, 2); (3, 3)] :: dyn_tail.
+Proof. reflexivity. Qed.
+Lemma dyn_history_good : GoodD (world_get (run_ops dyn_history) 0).
+Proof. rewrite run_ops_run, dyn_history_eq. exact dyn_history_good0. Qed.
+
+(** the hypotheses for an abstract state, reduced to boolean checks *)
+Lemma add_expr_hypotheses_by_computation s (k : option nat) :
+  GoodD s →
+  forallb (fun n => bool_decide (is_Some (succ s !! n))) [1; 2; 3; 4; 5; 6; 7; 10]%positive = true →
+  forallb (fun nt => bool_decide (refc s !! nt.1 = Some (indeg (succ s) nt.1 + dyn_ledger nt.1)))
+          (map_to_list (succ s)) = true →
+  max_nodes s = None →
+  ok_astb s expr_tree = true →
+  let sk := s <| trig := k |> in
+  Inv sk ∧ Counts sk dyn_ledger ∧ rctx sk = false ∧ max_nodes sk = None ∧
+  (lex expr_sp ≫= parse code_prec) = Some expr_tree ∧
+  ok_ast sk expr_tree ∧ refs_in (heldn dyn_ledger) expr_tree.
+Proof.
+  intros (HI&Hc&_&_) H1 H2 Hmx Hok sk.
+  assert (Hsame : same_tables s sk) by (by repeat split).
+  split; [by apply (Inv_same s)|].
+  split.
+  { apply (Counts_same s); [done|done|].
+    apply (Counts_by_computation s [1; 2; 3; 4; 5; 6; 7; 10]%positive dyn_ledger).
+    all: try done.
+    intros n Hn. unfold dyn_ledger. by rewrite bool_decide_false. }
+  split; [done|]. split; [done|]. split; [by vm_compute|].
+  split; [by apply ok_astb_ok|].
+  apply Forall_cons. split; [|by apply Forall_nil].
+  right. by vm_compute.
+Qed.
+
+Example add_expr_dynamic_example_hypotheses :
+  let s := world_get (run_ops dyn_history) 0 in
+  ∀ k : option nat, let sk := s <| trig := k |> in
+  Inv sk ∧ Counts sk dyn_ledger ∧ rctx sk = false ∧ max_nodes sk = None ∧
+  (lex expr_sp ≫= parse code_prec) = Some expr_tree ∧
+  ok_ast sk expr_tree ∧ refs_in (heldn dyn_ledger) expr_tree.
+Proof.
+  intros s k. apply (add_expr_hypotheses_by_computation s k).
+  - exact dyn_history_good.
+  - by vm_compute.
+  - by vm_compute.
+  - by vm_compute.
+  - by vm_compute.
+Qed.
+Print Assumptions add_expr_dynamic_example_hypotheses.
